@@ -258,7 +258,51 @@ func fixLinks(roots []*MNode) {
 
 var pathOf map[*MNode]string
 
+// directed class: a destination directory replaced by a source non-directory (or deleted), with
+// stale destination siblings whose names merely start with the same string (foo vs foo.txt, foo2/..)
+// and bytes on both sides of '/': exercises the removed-directory filter of the diff.
+func genSwapPrefix(r *Rng) (src, prior []*MNode) {
+	mkf := func(name, content string) *MNode {
+		return &MNode{Name: name, Stat: &types.Stat{Mode: 0644, Size: int64(len(content)), ModTime: int64(1600000000+r.Intn(1000)) * 1e9}, Content: []byte(content)}
+	}
+	mkd := func(name string, kids ...*MNode) *MNode {
+		return &MNode{Name: name, Stat: &types.Stat{Mode: uint32(os.ModeDir | 0755), ModTime: int64(1600000000+r.Intn(1000)) * 1e9}, Kids: kids}
+	}
+	x := Pick(r, []string{"a", "foo", "d"})
+	switch r.Intn(3) {
+	case 0:
+		src = append(src, mkf(x, "now a file"))
+	case 1:
+		src = append(src, &MNode{Name: x, Stat: &types.Stat{Mode: uint32(os.ModeSymlink | 0777), Linkname: "t", Size: 1, ModTime: 1600000000e9}})
+	}
+	prior = append(prior, mkd(x, mkf("k", "1"), mkd("sub", mkf("y", "2"))))
+	for _, suf := range []string{".txt", "2", "-b", " b", "!", "0", "~"} {
+		if r.Chance(45) {
+			if r.Bool() {
+				prior = append(prior, mkf(x+suf, "stale"))
+			} else {
+				prior = append(prior, mkd(x+suf, mkd("sub", mkf("x", "stale"))))
+			}
+		}
+	}
+	if r.Chance(40) {
+		src = append(src, mkf("zz", "later"))
+	}
+	if r.Chance(30) {
+		prior = append(prior, mkf("zz", "later"))
+	}
+	sr, pr := &MNode{Kids: src}, &MNode{Kids: prior}
+	sortKids(sr)
+	sortKids(pr)
+	return sr.Kids, pr.Kids
+}
+
 func genC01(g *Gen) {
+	for i := g.Vol(40, 600); i > 0; i-- {
+		src, prior := genSwapPrefix(g.Rng)
+		in := L(ViewSx(src), ViewSx(prior), Bool(false), NI(0), NI(16), NI(0), Bool(false), Bool(false))
+		g.Emit(0x0101, in, true, "directed-swap-prefix-siblings")
+	}
 	n := g.Vol(160, 3000)
 	small := []string{"a", "b", "ab", "a-b", "a b", "c", "d", "\x01", "é", ".fsutil-metadata"}
 	for i := 0; i < n; i++ {
